@@ -55,6 +55,8 @@ func runRung(t *testing.T, campaign string, rung int) {
 				}
 			case "ref_error", "ref_error_instant":
 				c.Class("reference_refuses_expression")
+			case "transient_discrepancy_not_reproduced_on_retry":
+				c.Class(what)
 			case "ref_empty":
 				c.Class("reference_result_empty")
 			}
